@@ -362,6 +362,7 @@ type stageItem struct {
 //     because nobody reads their results anymore. So in parallel mode the source is stopped
 //     instead, and the few items still in flight are discarded.
 //   - Errors are delivered at the position of the item they belong to, see stageItem.
+//   - A panic of the source ends the stage like an error item, see stoppableSource.
 func autoParallelStage(source iterator.Producer[Value], build func(source iterator.Producer[stageItem], workerCreated func()) iterator.Producer[stageItem]) iterator.Producer[Value] {
 	return func(yield iterator.Consumer[Value]) {
 		var workers atomic.Int32
@@ -376,7 +377,9 @@ func autoParallelStage(source iterator.Producer[Value], build func(source iterat
 			return false
 		}
 		stoppableSource := func(y iterator.Consumer[stageItem]) {
-			source(func(v Value, err error) bool {
+			// A panic of the source is turned into an error item. In parallel mode it would
+			// otherwise leave the stage without closing the channel the workers read from.
+			recoverProducer(source)(func(v Value, err error) bool {
 				if stopped.Load() {
 					return false
 				}
